@@ -11,7 +11,7 @@ import threading
 from hypothesis import strategies as st
 
 from vf import lab, progs, probe, values, oracle
-from vf.core import Prop, Outcome
+from vf.core import Prop, Outcome, fd
 from vf.props.C03 import resolve_tps
 
 from deep.api.tracepoint.trigger import build_trigger
@@ -164,7 +164,7 @@ class C02(Prop):
         chain = progs.chain_programs(n_values=6).flatmap(lambda pt: st.tuples(
             st.just(pt[0]), st.one_of(st.just(['stmt', pt[1]]), st.just(['stmt', pt[1]]),
                                       st.just(['func', len(pt[0]['funcs']) - 1]))))
-        return st.fixed_dictionaries({
+        return fd({
             'prog_where': st.one_of(general, chain, chain),
             'values': values.value_recipes(FRIENDLY, min_nodes=6, max_nodes=14 if big else 10, max_items=12,
                                            str_keys_only=True),
@@ -173,7 +173,7 @@ class C02(Prop):
                                                    'g_helper', 'G_LIST', 'G_STR']),
                                 max_size=2, unique=True),
             'route': st.sampled_from(['triggers', 'response']),
-            'cfg': st.fixed_dictionaries({
+            'cfg': fd({
                 'APP_ROOT': st.sampled_from(['/app', '/app/pkg', '/nowhere', '/app/pkg/mod']),
                 'IN_APP_INCLUDE': st.sampled_from([[], ['/app/lib'], ['/app/other', '/app/pkg']]),
                 'IN_APP_EXCLUDE': st.sampled_from([[], ['/app/pkg'], ['/app/lib/mod_b'], ['/usr']]),
